@@ -605,10 +605,12 @@ func streamCancel(c *Ctx) {
 				select {
 				case err := <-done:
 					send := codeName(s.Send(&[]byte{2}))
+					// closing the response while the request side is still open: what it reports, if
+					// anything, is the context's code too (F13)
+					closeResp := codeName(s.CloseResponse())
 					_ = s.CloseRequest()
-					_ = s.CloseResponse()
-					got := "receive=" + codeName(err) + " send-after=" + send
-					return got, codeName(err) == want && (send == want || strings.HasSuffix(send, "+eof"))
+					got := "receive=" + codeName(err) + " send-after=" + send + " closeresponse=" + closeResp
+					return got, codeName(err) == want && (send == want || strings.HasSuffix(send, "+eof")) && (closeResp == want || closeResp == "ok")
 				case <-time.After(4 * time.Second):
 					_ = s.CloseRequest() // lets the transport and the blocked Receive go
 					return "Receive still blocked 4s after the context ended", false
